@@ -6,6 +6,7 @@ def check(ctx):
         ('Environment', 'run'), ('Environment', 'step'), ('StopSimulation', 'callback'),
     ])
     nondet.sources(ctx, 'C03')
+    whomay.schedule_delay_exact(ctx, 'C03')
     return ('Static: Environment.run path table compared with the reference (numeric until refused when at <= now, '
             'fresh sentinel scheduled URGENT at at-now, stop callback only on that private sentinel; event until: value '
             'at once when processed, otherwise polled after each step so that every waiter is resumed before the stop); '
